@@ -15,7 +15,7 @@
     image b es k nb    crash image: the first `k` events and the first `nb` bytes of the next write
 -/
 import ZodbModel.Generated
-import Proofs.Disk
+import Proofs.DiskIdem
 namespace Props.C01
 open ZodbModel ZodbModel.Format ZodbModel.Disk
 
@@ -59,13 +59,13 @@ theorem parse_encode (ts : List FTxn) (h : FileWF ts) :
     ∃ r, recover (encodeFile ts) = .ok r ∧ r.IsClean ts ∧ r.how = .eof ∧ r.saved = none :=
   Proofs.Disk.recover_clean_eof ts h
 
-/-- Every strict byte-prefix of a transaction being written (whatever its status byte) is rejected
+/-- Every strict byte-prefix of a transaction being written (whatever its ASCII status byte) is rejected
     at its start without accepting anything: nothing there ⇒ clean end of file, fewer than 23 bytes
     ⇒ truncate, else the length test `pos + tl + 8 > file_size` fires ⇒ truncate. -/
 theorem parse_torn (st : Nat) (t : FTxn) (pos n : Nat) (hb : ∀ r ∈ t.recs, BodyWF r.body)
-    (htl : t.tlen < 2 ^ 64) (hn : n < t.tlen + 8) :
+    (htl : t.tlen < 2 ^ 64) (hn : n < t.tlen + 8) (hst : st < 128) :
     parseTxn ((encodeTxnSt st t).take n) pos = if n = 0 then .eof else .truncate (decide (23 ≤ n)) :=
-  Proofs.Format.parseTxn_torn st t pos n hb htl hn
+  Proofs.Format.parseTxn_torn st t pos n hb htl hn hst
 
 /-- … and so is the complete transaction while its status byte is still 'c' (voted, not finished),
     whatever follows it. -/
@@ -120,6 +120,32 @@ theorem recover_idempotent (cs : List FTxn) (ops : List Op) (hcs : FileWF cs) (h
     Proofs.Disk.fileWF_take cs ops hcs hops n
   exact ⟨r, h1, Proofs.Disk.recover_idempotent_of_clean _ r _ hw h1 h2⟩
 
+
+/-- … and on ARBITRARY bytes, damaged files included: whatever a writable open makes of a file
+    (unless it raises, or stops at the time-travel bound, which a plain open never does below tid
+    ff…ff), opening the result again finds exactly the same state and cuts nothing off. -/
+theorem recover_idempotent_any (b : Bytes) (r : Recovered) (h : recover b = .ok r)
+    (hs : r.how ≠ .stop) :
+    recover r.bytes = .ok { r with how := .eof, saved := none } :=
+  Proofs.Disk.recover_idempotent_any b r h hs
+
+/-- Crash, reopen, keep working, crash again: the reopened file IS a cleanly written file `p`
+    (a prefix of what was committed), so every further history on it and every further cut is again
+    covered by `crash_prefix` — the guarantee holds along any sequence of crashes and recoveries. -/
+theorem crash_recover_continue (cs : List FTxn) (ops : List Op) (hcs : FileWF cs) (hops : OpsWF cs ops)
+    (k nb : Nat) :
+    ∃ p r, recover (image (encodeFile cs) (trace cs ops) k nb) = .ok r ∧ r.bytes = encodeFile p ∧
+      FileWF p ∧
+      ∀ (ops' : List Op) (k' nb' : Nat), OpsWF p ops' →
+        ∃ n, returned ((trace p ops').take k') ≤ n ∧ n ≤ (newCommits p ops').length ∧
+          ∃ r', recover (image r.bytes (trace p ops') k' nb') = .ok r' ∧
+            r'.IsClean (p ++ (newCommits p ops').take n) := by
+  obtain ⟨n, _, _, r, h1, h2⟩ := crash_prefix cs ops hcs hops k nb
+  have hw := Proofs.Disk.fileWF_take cs ops hcs hops n
+  refine ⟨_, r, h1, h2.1, hw, ?_⟩
+  intro ops' k' nb' ho
+  rw [h2.1]
+  exact crash_prefix _ ops' hw ho k' nb'
 
 /-! ### non-vacuity: a concrete history with three commits, an abort after vote, a failing vote and
     an abort before vote meets the hypotheses; cuts in the middle of a record, between vote and
